@@ -2080,6 +2080,10 @@ static void DeinitFields(void) {
 static void InternSymbol_XA(char* pArg, TempResult* pResult) {
     Byte        Reg;
     tSymbolSize Size;
+    tSymbolSize SaveOpSize = OpSize;
+
+    /* the attribute only decides how Rn is to be read here; an instruction
+       decoder may have changed OpSize for the operand it is just parsing */
 
     if (*AttrPart.str.p_str) {
         OpSize = AttrPartOpSize;
@@ -2091,6 +2095,8 @@ static void InternSymbol_XA(char* pArg, TempResult* pResult) {
         pResult->Contents.RegDescr.Reg     = Reg;
         pResult->Contents.RegDescr.Dissect = DissectReg_XA;
     }
+
+    OpSize = SaveOpSize;
 }
 
 static void InitCode_XA(void) {
